@@ -70,6 +70,11 @@ func (d *deepHasher) walk(v reflect.Value) {
 		d.walk(v.Elem())
 	case reflect.Struct:
 		for i := 0; i < v.NumField(); i++ {
+			if v.Type().Field(i).Name == "XXX_sizecache" {
+				// golang/protobuf stores the computed size here with atomic stores during
+				// Marshal/Size: a synchronised cache, not part of the observable state
+				continue
+			}
 			f := v.Field(i)
 			if !f.CanInterface() && f.CanAddr() {
 				f = reflect.NewAt(f.Type(), unsafe.Pointer(f.UnsafeAddr())).Elem()
@@ -227,6 +232,9 @@ func pickCalls(r *rand.Rand, c *TrieCase, k int, scansOK bool) []readCall {
 		if len(c.Keys) > 0 && r.Intn(2) == 0 {
 			rc.Q = c.Keys[r.Intn(len(c.Keys))]
 		}
+		if (rc.API == "ScanFrom" || rc.API == "Iter" || rc.API == "ScanFromTo") && r.Intn(3) == 0 {
+			rc.Q = "" // scans from the beginning
+		}
 		calls[i] = rc
 	}
 	return calls
@@ -323,10 +331,14 @@ func runGated(c *TrieCase, st *trie.SlimTrie, calls []readCall, sched []int, has
 	return
 }
 
-func concEv(c *TrieCase, st *trie.SlimTrie, calls []readCall, sched []int) Ev {
+// The reference results ("the same call run alone") are taken on a TWIN instance built
+// from the same input, so that the instance under test is untouched when the
+// concurrent phase starts: state that a first call initialises lazily is then
+// initialised under concurrency, not by the reference run.
+func concEv(c *TrieCase, st, twin *trie.SlimTrie, calls []readCall, sched []int) Ev {
 	solo := make([]string, len(calls))
 	for i, rc := range calls {
-		solo[i] = doCall(c, st, rc)
+		solo[i] = doCall(c, twin, rc)
 	}
 	base := deepHash(st)
 	got, visits, hc, steps := runGated(c, st, calls, sched, base)
@@ -366,12 +378,12 @@ func readSchedules(path string) [][]int {
 
 // ---- free-running stress (meant for the -race build) ------------------------------------
 
-func stressEv(c *TrieCase, st *trie.SlimTrie, r *rand.Rand, nG int, dur time.Duration, scansOK bool) Ev {
+func stressEv(c *TrieCase, st, twin *trie.SlimTrie, r *rand.Rand, nG int, dur time.Duration, scansOK bool) Ev {
 	trie.VerifHook = nil
 	calls := pickCalls(r, c, 24, scansOK)
 	solo := make([]string, len(calls))
 	for i, rc := range calls {
-		solo[i] = doCall(c, st, rc)
+		solo[i] = doCall(c, twin, rc)
 	}
 	base := deepHash(st)
 	var wg sync.WaitGroup
@@ -414,6 +426,19 @@ func stressEv(c *TrieCase, st *trie.SlimTrie, r *rand.Rand, nG int, dur time.Dur
 		first = first[:200]
 	}
 	return Ev{"ev": "stress", "goroutines": nG, "calls": total, "mismatch": mismatch, "first": first, "hashchanged": b2i(deepHash(st) != base)}
+}
+
+// freshTwin: another instance with the same content (rebuilt, or reloaded from bytes)
+func freshTwin(c *TrieCase, st *trie.SlimTrie, loaded bool) *trie.SlimTrie {
+	if loaded {
+		if st2, _, _ := Reload(c, st); st2 != nil {
+			return st2
+		}
+	}
+	if st2, _, _ := c.Build(); st2 != nil {
+		return st2
+	}
+	return st
 }
 
 // ---- generator ---------------------------------------------------------------------------
@@ -462,7 +487,13 @@ func genConc(t *Tracer, m *Meta, tier string, seed int64, schedFile string, stre
 			}
 			nG := []int{2, 4, 8, 16, 32}[i%5]
 			cpl := c.Opt4[3] == 1 || (c.Opt4[1] == 1 && c.Opt4[2] == 1)
-			t.Emit(stressEv(c, st, r, nG, dur, cpl || len(c.Keys) == 0))
+			twin := freshTwin(c, st, i%2 == 1)
+			// several short rounds, each on an untouched instance: first-use effects
+			rounds := 6
+			for k := 0; k < rounds; k++ {
+				fresh := freshTwin(c, st, i%2 == 1)
+				t.Emit(stressEv(c, fresh, twin, r, nG, dur/time.Duration(rounds), cpl || len(c.Keys) == 0))
+			}
 			m.Calls++
 			m.class(fmt.Sprintf("stress:%d-goroutines", nG))
 		}
@@ -498,7 +529,7 @@ func genConc(t *Tracer, m *Meta, tier string, seed int64, schedFile string, stre
 				}
 			}
 			calls := pickCalls(r, c, nR, cpl || len(c.Keys) == 0)
-			t.Emit(concEv(c, st, calls, scheds[j]))
+			t.Emit(concEv(c, freshTwin(c, st, i%3 == 1), st, calls, scheds[j]))
 			m.Calls += nR
 			key := fmt.Sprint(i, scheds[j])
 			if !m.seen[key] {
@@ -529,7 +560,7 @@ func concReplay(t *Tracer, name string, e map[string]interface{}, c **TrieCase, 
 			r := x.(map[string]interface{})
 			calls = append(calls, readCall{API: r["api"].(string), Q: fromInts(toIntSlice(r["q"])), Q2: fromInts(toIntSlice(r["q2"])), N: int(r["n"].(float64))})
 		}
-		t.Emit(concEv(*c, st, calls, toIntSlice(e["sched"])))
+		t.Emit(concEv(*c, freshTwin(*c, st, false), st, calls, toIntSlice(e["sched"])))
 		return true
 	case "stress":
 		if st == nil {
@@ -538,8 +569,8 @@ func concReplay(t *Tracer, name string, e map[string]interface{}, c **TrieCase, 
 		cpl := (*c).Opt4[3] == 1 || ((*c).Opt4[1] == 1 && (*c).Opt4[2] == 1)
 		r := rand.New(rand.NewSource(99))
 		var worst Ev
-		for i := 0; i < 3; i++ {
-			ev := stressEv(*c, st, r, int(e["goroutines"].(float64)), 2*time.Second, cpl || len((*c).Keys) == 0)
+		for i := 0; i < 8; i++ {
+			ev := stressEv(*c, freshTwin(*c, st, false), st, r, int(e["goroutines"].(float64)), 700*time.Millisecond, cpl || len((*c).Keys) == 0)
 			if worst == nil || ev["mismatch"].(int) > worst["mismatch"].(int) {
 				worst = ev
 			}
